@@ -334,6 +334,9 @@ func rewriteGroups(s string, subs map[string]*CExpr) (string, error) {
 		}
 		inner := s[i+1 : j]
 		pieces := splitTop(inner, ",")
+		if t := strings.TrimSpace(inner); strings.HasPrefix(t, "forall ") || strings.HasPrefix(t, "exists ") {
+			pieces = []string{inner}
+		}
 		out.WriteByte('(')
 		for k, piece := range pieces {
 			if k > 0 {
